@@ -264,6 +264,8 @@ pub trait Sub {
     /// IntoStaticStr by reference and by value
     fn into_static(&self) -> Option<(&'static str, &'static str)>;
     fn debug(&self) -> String;
+    /// `value.to_string()` with method-call syntax on the concrete type
+    fn direct_to_string(&self) -> String;
 }
 
 pub struct VInfo {
@@ -513,8 +515,17 @@ pub fn exec(case: &Case, leg: &Leg, mut stats: Option<&mut Stats>, keep_log: boo
                     let want = catch(|| iv.display().to_string());
                     let ev_ref = log_take();
                     log_clear();
-                    let got = catch(|| subject.display().to_string());
+                    let got = catch(|| {
+                        let a = subject.display().to_string();
+                        a
+                    });
                     let ev_sut = log_take();
+                    if let (Ok(a), Ok(b)) = (&got, catch(|| subject.direct_to_string())) {
+                        if *a != b {
+                            return (Err(mk_fail("output", format!("value.to_string() == {:?} (what Display prints)", a), format!("{:?}", b))), info);
+                        }
+                    }
+                    log_clear();
                     if keep_log {
                         info.log.push(format!("to_string() -> {:?}   inner.to_string() -> {:?}", got, want));
                     }
